@@ -314,6 +314,30 @@ func runC01R1(c *Ctx, r *Rep) {
 		for _, call := range calls {
 			names = append(names, Callee(vmp.TypesInfo, call).Name())
 		}
+		// the API function handed as a value to a helper that applies it to the operands: vm.binaryOp(py.Add)
+		// (C01.R2 follows the value into the helper and checks which operands it is applied to)
+		ast.Inspect(fd.Body, func(n ast.Node) bool {
+			call, ok := n.(*ast.CallExpr)
+			if !ok {
+				return true
+			}
+			for _, a := range call.Args {
+				var id *ast.Ident
+				switch x := unparen(a).(type) {
+				case *ast.Ident:
+					id = x
+				case *ast.SelectorExpr:
+					id = x.Sel
+				}
+				if id == nil {
+					continue
+				}
+				if fn, ok := vmp.TypesInfo.Uses[id].(*types.Func); ok && fn.Pkg() != nil && fn.Pkg().Path() == modPath+"/py" && fn.Type().(*types.Signature).Recv() == nil {
+					names = append(names, fn.Name())
+				}
+			}
+			return true
+		})
 		return strings.Join(names, ","), fd.Pos(), true
 	}
 	checkLink := func(kind, astConst, wantOp, wantAPI string, s *constSwitch) {
